@@ -7,6 +7,7 @@ type HarnessSpec struct {
 	Name       string
 	Covers     []string // labels that must be reached (vacuity guard)
 	Terminates bool     // a path that exhausts the step budget is a violation (termination obligation)
+	Concurrent bool     // the harness runs goroutines: natively the schedule is Go's, so witness replays are compared by outcome kind only and violations are replayed many times
 	MaxPathsQ  int      // path budgets (0 = default)
 	MaxPathsT  int
 	StepsQ     int
@@ -170,7 +171,7 @@ func init() {
 	addProp(&PropSpec{
 		ID: "C04",
 		Harnesses: []HarnessSpec{
-			{Name: "VerifH_negotiate_type", Covers: []string{"negotiated", "default"}},
+			{Name: "VerifH_negotiate_type", Covers: []string{"negotiated", "default", "several-header-lines"}},
 			{Name: "VerifH_negotiate_raw", Covers: []string{"done"}},
 			{Name: "VerifH_http_send", Covers: []string{"unary", "response-body", "httpbody", "unary-refused", "httpbody-refused"}},
 			{Name: "VerifH_addRule_selectors", Covers: []string{"resp-field", "resp-whole"}},
@@ -198,7 +199,7 @@ func init() {
 		ID: "C03",
 		Harnesses: []HarnessSpec{
 			{Name: "VerifH_serveHTTP_params", Covers: []string{"query-param", "body-star", "body-field", "nested-bound"}},
-			{Name: "VerifH_params", Covers: []string{"string", "json-name", "bytes", "bytes-rejected", "enum", "enum-rejected", "repeated", "nested", "through-list", "through-map", "unknown-key", "int32", "int32-rejected", "bool", "bool-rejected", "int64", "uint32", "uint32-rejected"}},
+			{Name: "VerifH_params", Covers: []string{"string", "json-name", "bytes", "bytes-rejected", "enum", "enum-rejected", "repeated", "nested", "through-list", "through-map", "unknown-key", "int32", "int32-rejected", "bool", "bool-rejected", "int64", "uint32", "uint32-rejected", "int-out-of-range-rejected", "int-at-range-limit"}},
 			{Name: "VerifH_http_recv_stream", Covers: []string{"clean-eof"}},
 		},
 		Bounds: map[string]string{
@@ -227,7 +228,7 @@ func init() {
 		HarnessSpec{Name: "VerifH_serveGRPC", Covers: []string{"ok", "failed"}},
 		HarnessSpec{Name: "VerifH_grpcweb", Covers: []string{"ok", "trailers-only", "same-key-header-and-trailer"}})
 	ext("C15", "driver: grpc-timeout header through serveGRPC: one digit x every unit (deadline seen by the handler) and every ASCII string of 1..3 bytes that decodeTimeout rejects (400, handler never invoked)",
-		HarnessSpec{Name: "VerifH_serveGRPC_timeout", Covers: []string{"malformed", "deadline", "zero-timeout", "sub-second"}})
+		HarnessSpec{Name: "VerifH_serveGRPC_timeout", Covers: []string{"malformed", "deadline", "zero-timeout", "sub-second", "with-stats"}})
 	props["C15"].Assume = append(props["C15"].Assume, "frozen clock: time.Now() is the zero Time, time.Until(t) = t - now; no timers run", "context.WithTimeout / WithCancel interpreted from source")
 	ext("C06", "transport reachability and gRPC-web framing: unary gRPC-web calls in binary and base64 text mode over HTTP/1.1 and HTTP/2",
 		HarnessSpec{Name: "VerifH_grpcweb", Covers: []string{"ok", "text", "binary", "http2"}})
@@ -235,7 +236,7 @@ func init() {
 		ID: "C18",
 		Harnesses: []HarnessSpec{
 			{Name: "VerifH_serveGRPC", Covers: []string{"interceptor", "stats", "ok", "failed"}},
-			{Name: "VerifH_serveHTTP_status", Covers: []string{"interceptor", "stats", "ok", "twirp", "status-body", "header-then-error", "http-header-metadata"}},
+			{Name: "VerifH_serveHTTP_status", Covers: []string{"interceptor", "stats", "ok", "twirp", "status-body", "header-then-error", "header-then-reply", "http-header-metadata"}},
 			{Name: "VerifH_grpc_recv", Covers: []string{"stats-inpayload"}},
 			{Name: "VerifH_grpc_send", Covers: []string{"stats-outpayload"}},
 		},
@@ -363,7 +364,7 @@ func init() {
 	ext("C18", "WebSocket: End stats event of failing / succeeding handlers",
 		HarnessSpec{Name: "VerifH_ws_close", Covers: []string{"stats"}})
 	ext("C06", "WebSocket: k<=2 masked JSON text frames echoed by the handler, then the client's close frame",
-		HarnessSpec{Name: "VerifH_ws_stream", Covers: []string{"echoed", "two-messages"}})
+		HarnessSpec{Name: "VerifH_ws_stream", Covers: []string{"echoed", "two-messages", "binary-frame"}})
 	ext("C08", "WebSocket: a text message one byte above the receive limit among messages within it",
 		HarnessSpec{Name: "VerifH_ws_stream", Covers: []string{"oversize", "echoed"}})
 	ext("C03", "real JSON codec (CodecJSON / protojson) through ServeHTTP: path variable + query parameter + JSON body (body: * and body: field) with symbolic escape-free strings of 1..2 bytes",
@@ -385,7 +386,7 @@ func init() {
 	ext("C09", norm, HarnessSpec{Name: "VerifH_serveHTTP_path", Covers: []string{"dispatched", "not-dispatched"}})
 
 	ext("C19", "health.AddHealthz end to end: AddHealthz (real) merged into an empty service config or one holding a user rule, NewMux(ServiceConfigOption) + registerService of a fake grpc.health.v1.Health descriptor whose Check handler is the REAL grpc health.Server (bridged message types), one SetServingStatus(name of 0..2 bytes, any of the 4 statuses) or none, GET /v1/healthz?service=<0..2 bytes> and the user's own path, WEBSOCKET /v1/healthz routed to Watch",
-		HarnessSpec{Name: "VerifH_healthz", Covers: []string{"status-set", "status-unknown", "unknown-service", "user-rule-kept", "default-service"}})
+		HarnessSpec{Name: "VerifH_healthz", Covers: []string{"status-set", "status-unknown", "unknown-service", "user-rule-kept", "default-service", "other-config-does-not-leak"}})
 	props["C19"].Assume = append(props["C19"].Assume, "proto.Merge(dst, src) on *serviceconfig.Service modelled: unset dst.Http takes src.Http, otherwise src's rules are appended (replays run the real Merge)", "the health server's generated request / response messages are bridged to fake messages field by field (service, status)")
 	for i, o := range props["C19"].Outside {
 		if strings.HasPrefix(o, "health.AddHealthz end-to-end") {
@@ -425,22 +426,37 @@ func init() {
 
 	gz := "REAL compress/gzip (and compress/flate, hash/crc32) interpreted on concrete payloads {1 byte, 64 x 'a', 30 distinct bytes} with larking's pooled CompressorGzip, receive limit 32, two consecutive calls on one mux (the second reuses the pooled reader / writer; full menu for the second call in the thorough tier)"
 	ext("C13", gz+"; pooled compressor used 2x then a truncated stream (every cut of 1..9 bytes) then 2 decompressions",
-		HarnessSpec{Name: "VerifH_gzip_pool", Covers: []string{"roundtrip", "after-corrupt-stream"}},
-		HarnessSpec{Name: "VerifH_gzip_http", Covers: []string{"second-call", "gzip-request", "truncated-request"}},
-		HarnessSpec{Name: "VerifH_gzip_grpc", Covers: []string{"second-call", "gzip-request", "gzip-reply", "truncated-request"}})
+		HarnessSpec{Name: "VerifH_gzip_pool", StepsQ: 40000000, StepsT: 40000000, Covers: []string{"roundtrip", "after-corrupt-stream"}},
+		HarnessSpec{Name: "VerifH_gzip_http", StepsQ: 40000000, StepsT: 40000000, Covers: []string{"second-call", "gzip-request", "truncated-request", "pool-probe"}},
+		HarnessSpec{Name: "VerifH_gzip_grpc", StepsQ: 40000000, StepsT: 40000000, Covers: []string{"second-call", "gzip-request", "gzip-reply", "truncated-request", "pool-probe"}})
 	ext("C08", gz+"; HTTP Content-Encoding: gzip bodies and gRPC compressed frames around the limit",
-		HarnessSpec{Name: "VerifH_gzip_http", Covers: []string{"over-limit-after-decompression", "within-limit-though-compressed-form-is-larger"}},
-		HarnessSpec{Name: "VerifH_gzip_grpc", Covers: []string{"over-limit-after-decompression", "compressed-form-above-limit-refused"}})
+		HarnessSpec{Name: "VerifH_gzip_http", StepsQ: 40000000, StepsT: 40000000, Covers: []string{"over-limit-after-decompression", "within-limit-though-compressed-form-is-larger"}},
+		HarnessSpec{Name: "VerifH_gzip_grpc", StepsQ: 40000000, StepsT: 40000000, Covers: []string{"over-limit-after-decompression", "compressed-form-above-limit-refused"}})
 	ext("C03", gz+"; gzip content-encoded request bodies (valid and truncated)",
-		HarnessSpec{Name: "VerifH_gzip_http", Covers: []string{"gzip-request", "truncated-request"}})
+		HarnessSpec{Name: "VerifH_gzip_http", StepsQ: 40000000, StepsT: 40000000, Covers: []string{"gzip-request", "truncated-request", "unknown-length"}})
 	ext("C04", gz+"; every response body decoded as its Content-Encoding header says is the reply / the error status, with and without Accept-Encoding: gzip, for succeeding and failing handlers",
-		HarnessSpec{Name: "VerifH_gzip_http", Covers: []string{"error-with-accept-gzip", "gzip-request"}})
+		HarnessSpec{Name: "VerifH_gzip_http", StepsQ: 40000000, StepsT: 40000000, Covers: []string{"error-with-accept-gzip", "gzip-request"}})
 	ext("C06", gz+"; gRPC per-message gzip compression in both directions",
-		HarnessSpec{Name: "VerifH_gzip_grpc", Covers: []string{"gzip-request", "gzip-reply", "truncated-request"}})
+		HarnessSpec{Name: "VerifH_gzip_grpc", StepsQ: 40000000, StepsT: 40000000, Covers: []string{"gzip-request", "gzip-reply", "truncated-request"}})
 	replaceOutside("C03", "real protobuf binary bodies and gzip", "real protobuf binary bodies; gzip with symbolic payload bytes (payloads are concrete): the claim is the plumbing (which bytes reach which codec on which (sub)message, params after the body, first message only), the string / bytes / enum / bool / int32 / int64 / uint32 conversions, and JSON bodies of string and nested-message members through larking's JSON codec (protojson modelled, real in replays)")
 	replaceOutside("C04", "gzip's real byte stream", "a gzip-compressed RESPONSE: NewMux builds its encoding offers from the codec names, so response compression is never negotiated on this tree; the harness checks that branch (with the real gzip) as soon as a change makes it reachable")
 	replaceOutside("C06", "gzip, real HTTP/2 flow control", "real HTTP/2 flow control; gzip with symbolic payload bytes")
 	replaceOutside("C08", "gzip's real expansion", "gzip with symbolic payload bytes; whether a compressed FRAME longer than the limit around a message within it must be accepted (grpc-go refuses it too) is left unspecified")
 	replaceOutside("C09", "real protobuf / JSON codecs and gzip", "real protobuf codec; gzip streams with symbolic bytes")
 	replaceOutside("C13", "data-race freedom, true concurrency, gzip pools", "data-race freedom, true concurrency, the proxy's stream pumps: no goroutine model (N/A part, stated); pooled-buffer aliasing and pooled gzip reader / writer reuse are decided across consecutive requests")
+
+	typed := "typed path variables through ServeHTTP: int32 (every plain ASCII capture of 1..2 bytes, so 0 and -0 are included), bool (false / true / 0 / False) and a field with a distinct JSON name, each with and without a rival query parameter naming the same field (by proto or JSON name)"
+	ext("C07", typed, HarnessSpec{Name: "VerifH_serveHTTP_typed", Covers: []string{"zero-capture-with-rival", "rival-by-json-name", "query-rival", "int", "bool"}})
+	ext("C01", typed, HarnessSpec{Name: "VerifH_serveHTTP_typed", Covers: []string{"int", "bool", "int-rejected", "bool-rejected", "json-name-field"}})
+	ext("C03", typed, HarnessSpec{Name: "VerifH_serveHTTP_typed", Covers: []string{"int", "bool", "int-rejected", "bool-rejected"}})
+
+	ext("C04", "unary replies through ServeHTTP with a handler that sends its headers explicitly (grpc.SendHeader) before replying: the reply is still labelled with the negotiated content type",
+		HarnessSpec{Name: "VerifH_serveHTTP_status", Covers: []string{"ok", "header-then-reply"}})
+
+	conc := "goroutine model (cooperative, context-bounded: at most 2 preemptive switches per path in the quick tier, 3 in the thorough tier; scheduling points at mutex, RWMutex, WaitGroup, Once, sync/atomic incl. atomic.Value, sync.Pool, channel operations, goroutine start / end and the reflection round trips): the REAL RegisterConn / registerService / DropConn, two of them running concurrently with each other and with a request for an already-registered method, 3 scenarios"
+	ext("C12", conc,
+		HarnessSpec{Name: "VerifH_sched_selftest", Concurrent: true, Covers: []string{"lost-update", "no-lost-update"}},
+		HarnessSpec{Name: "VerifH_conc_registration", Concurrent: true, Covers: []string{"registerconn-registerservice", "registerconn-dropconn", "registerservice-dropconn"}})
+	props["C12"].Assume = append(props["C12"].Assume, "the reflection client of a backend connection is answered by the harness's fake conversation (natively a real in-process gRPC backend with a real reflection service is dialled)", "plain (unsynchronised) memory accesses are not scheduling points")
+	replaceOutside("C12", "the interleaving quantifier itself and data-race freedom", "schedules with more preemptions than the bound, interleavings of unsynchronised memory accesses between two scheduling points, and data-race freedom as such (no happens-before tracking): replacing the atomic publication by a plain field would NOT be detected; removing or narrowing Mux.mu is (lost update)")
 }
